@@ -422,7 +422,10 @@ def execute(sc, fault_at=()):
                     capture=True, patchers=[], extra={})
     template = os.path.join(logdir, "app_{time}.log" if sc["timed"] else "app.log")
     kwargs = {"format": "{message}", "catch": True, "encoding": sc.get("encoding", "utf8")}
-    if sc["rot"]:
+    real = sc.get("real") or {}
+    if real.get("rotation") is not None:
+        kwargs["rotation"] = real["rotation"]      # loguru's own size predicate (monitors only, no model)
+    elif sc["rot"]:
         kwargs["rotation"] = rotation
     c = sc.get("comp")
     if c == "call":
@@ -430,7 +433,9 @@ def execute(sc, fault_at=()):
     elif c is not None:
         kwargs["compression"] = sc.get("spelling", c)
     r = sc.get("ret")
-    if r:
+    if real.get("retention") is not None:
+        kwargs["retention"] = real["retention"]
+    elif r:
         kwargs["retention"] = r[1] if r[0] == "count" else retention_callable
     if sc["watch"]:
         kwargs["watch"] = True
@@ -458,7 +463,7 @@ def execute(sc, fault_at=()):
             buf = io.StringIO()
             sys.stderr = buf
             try:
-                if kind == "i" or (kind == "w" and hid[0] is None):
+                if kind == "i" or (kind in ("w", "s") and hid[0] is None):
                     try:
                         with shim.openers():
                             hid[0] = logger.add(template, delay=(kind != "i"), **kwargs)
@@ -704,6 +709,25 @@ def curated():
     return out
 
 
+def real_policy_scenarios(quick):
+    """loguru's own size rotation and count/age retention combined with compression, under faults; judged by
+    the monitors only (the rotation/retention predicates themselves belong to C19/C10)"""
+    n = 10 if quick else 16
+    out = [
+        base_sc(comp="gz", real={"rotation": "60 B", "retention": 2}, ret=["count", 2],
+                ops=[W() for _ in range(n)] + [S()]),
+        base_sc(comp=None, watch=True, real={"rotation": "45 B", "retention": 1}, ret=["count", 1],
+                ops=[W() for _ in range(n // 2)] + [["xd", 0]] + [W() for _ in range(n // 2)] + [S()]),
+    ]
+    if not quick:
+        out.append(base_sc(timed=True, comp="tar.gz", real={"rotation": "60 B", "retention": "0 seconds"}, ret=["count", 0],
+                           ops=[W(0, k) for k in range(n)] + [S(n)]))
+        out.append(base_sc(comp="zip", payload="uni", real={"rotation": "80 B"},
+                           pre=[["R_5_1_b_0", "f", [PRE + 8]], ["A_R_5_2_b_0", "a", [PRE + 9]]],
+                           ops=[I()] + [W() for _ in range(n)] + [S(), ["r"], W(), S()]))
+    return out
+
+
 def gen_scenario(rng):
     comp = rng.choice([None, None, "call"] + CEXTS + CEXTS)
     sc = base_sc(rot=rng.chance(80), comp=comp, watch=rng.chance(25), timed=rng.chance(35),
@@ -813,6 +837,9 @@ def judge(ctx, execs, drv, prop):
         return 0
     ndiff = 0
     for (sc, faults, ex), out in zip(execs, outs):
+        if sc.get("real"):
+            ctx.stat("executions_real_policies_monitors_only")
+            continue
         ctx.traces_validated += 1
         rep = {"scenario": sc, "faults": list(faults)}
         diffs = compare(ex, out)
@@ -863,6 +890,7 @@ def run(ctx):
     # thorough: ALL pairs of faults on the curated scenarios, a sample of 150 pairs on each random one
     execs += explore(ctx, curated(), pairs=(False if ctx.quick else True))
     execs += explore(ctx, [gen_scenario(rng) for _ in range(nrand)], pairs=(False if ctx.quick else 150))
+    execs += explore(ctx, real_policy_scenarios(ctx.quick), pairs=False)
     ctx.exhaustive = False
     for sc, _f, ex in execs[:2]:
         ctx.sample({"scenario": sc, "line": ex.line})
@@ -888,7 +916,7 @@ def replay(ctx, rep):
     sc, faults = r["scenario"], tuple(r.get("faults", []))
     ex = execute(sc, faults)
     try:
-        out = core.Driver(DRIVER).run([ex.line])[0]
+        out = None if sc.get("real") else core.Driver(DRIVER).run([ex.line])[0]
     except core.DriverError:
         out = None
     print("scenario:", core.json.dumps(sc))
